@@ -222,4 +222,21 @@ mod verif_replay {
             assert!(ended, "C15: the engine does not end within 8 s when its input is closed (search running: {running})");
         }
     }
+
+    /// C16 (bench clause; thorough tier only -- a debug-build bench takes a few minutes): the built-in bench prints the same
+    /// node total every time, also when two runs compete for the CPU
+    #[test]
+    fn c16_bench_total_repeatable() {
+        if !std::env::var("VERIF_TIER").map(|t| t == "thorough").unwrap_or(false) { return; }
+        let run = || Command::new(env!("CARGO_BIN_EXE_rust_chess_engine")).arg("bench").stdin(Stdio::null()).stdout(Stdio::piped()).stderr(Stdio::null()).spawn().expect("bench starts");
+        let nodes = |c: Child| -> String {
+            let out = c.wait_with_output().expect("bench ends");
+            let text = String::from_utf8_lossy(&out.stdout).to_string();
+            text.lines().find(|l| l.trim_end().ends_with(" nodes")).unwrap_or_else(|| panic!("C16: bench printed no node total: {text}")).trim().to_string()
+        };
+        let (a, b) = (run(), run());            // two runs at the same time
+        let (na, nb) = (nodes(a), nodes(b));
+        let nc = nodes(run());                  // and one alone
+        assert!(na == nb && nb == nc, "C16: the bench node total is not repeatable: `{na}` and `{nb}` (concurrent runs), `{nc}` (alone)");
+    }
 }
